@@ -240,7 +240,7 @@ pub fn miri_slice(r: &mut Report, n: usize, shard: usize) -> usize {
 
 pub fn run(ctx: &Ctx) -> i32 {
     let mut report = ctx.report("C16", "exploration");
-    report.rule = "exhaustive: (style, length, trailing-data) for every representable length of BER-TLV/APDU (0..65535), LLVAR (0..99), LLLVAR (0..999), Fixed<1..17> (payload 0..N) with trailing data of 0/1/300 bytes and, for the two-byte-length styles, trailing data of exactly len-1, len, len+1 and byte-swapped-len bytes; plus every byte string of length 0..3 through the four prefix parsers. A case is non-trivial when the statement claims a definite outcome for it (all round-trip cases; parser inputs whose prefix bytes are well-formed for the style). Distinct = distinct (style,length,trailing) / (parser,input).".into();
+    report.rule = "exhaustive: (style, length, trailing-data) for every representable length of BER-TLV/APDU (0..65535), LLVAR (0..99), LLLVAR (0..999), Fixed<1..17> (payload 0..N) with trailing data of 0/1/300 bytes and, for the two-byte-length styles, trailing data of exactly len-1, len, len+1 and byte-swapped-len bytes, and trailing data that begins with one / two copies of the prefix itself; plus every byte string of length 0..3 through the four prefix parsers. A case is non-trivial when the statement claims a definite outcome for it (all round-trip cases; parser inputs whose prefix bytes are well-formed for the style). Distinct = distinct (style,length,trailing) / (parser,input).".into();
     report.exhaustive = Some(true);
     report.assumptions = vec![
         "independent shortest-form formulas and prefix parsers of refcodec::codec are the oracle".into(),
@@ -257,6 +257,19 @@ pub fn run(ctx: &Ctx) -> i32 {
             while n <= st.max() {
                 for t in [&[][..], &[0x5a][..], &trailing300[..]] {
                     check_roundtrip(r, st, n, t);
+                }
+                // trailing data whose *content* looks like a prefix again: the prefix itself, twice, followed by filler
+                if n < 2048 || !quick || n % 53 == shard % 53 {
+                    let pre = st.reference(n);
+                    let mut t1 = pre.clone();
+                    t1.extend(&big[..n.min(big.len())]);
+                    check_roundtrip(r, st, n, &t1);
+                    let mut t2 = pre.clone();
+                    t2.extend(&pre);
+                    t2.extend(&big[..(n + 3).min(big.len())]);
+                    check_roundtrip(r, st, n, &t2);
+                    let t3 = vec![pre[0]; n.min(700) + pre.len() + 1];
+                    check_roundtrip(r, st, n, &t3);
                 }
                 // trailing data whose length is related to the encoded length itself (exactly the announced
                 // payload, one less, one more, and the byte-swapped length): quick on a stride, thorough on all
